@@ -490,6 +490,30 @@ func genC07(cs *CaseSet, rng *Rng, tier string, dir string) {
 			sub = append(sub, encField(hotline.FieldUserAccess, make([]byte, 8))...)
 			return call(mobius.HandleUpdateUser, hotline.TranUpdateUser, hotline.NewField(hotline.FieldData, append(be16(5), sub...))), nil
 		})
+		// ... and a restart afterwards: the loader reads every account file back (and may move files around to
+		// finish an interrupted rename) - whatever login a record carries, nothing may land outside the directory
+		rdir := filepath.Join(env.Cfg, fmt.Sprintf("Users-restart-%d", k))
+		// the traversal ends in a name that exists nowhere yet (the planted victims would only stand in the way of a
+		// file that is being MOVED out)
+		freshLogin := bytes.ReplaceAll(login, []byte(victimName), []byte(fmt.Sprintf("zz_new_%d", k)))
+		effect("account-create-then-restart", rdir, [][]byte{freshLogin}, func() ([]hotline.Transaction, [][]byte) {
+			login := freshLogin
+			// a directory of its own (a guest account and the hostile one), so that the restart does not depend on
+			// what the other hostile logins left in the shared directory
+			os.MkdirAll(rdir, 0755)
+			writeAccountFile(rdir, *hotline.NewAccount("guest", "Guest User", "", hotline.AccessBitmap{}))
+			am, err := mobius.NewYAMLAccountManager(rdir + "/")
+			if err != nil {
+				return nil, nil
+			}
+			saved := env.Srv.AccountManager
+			env.Srv.AccountManager = am
+			defer func() { env.Srv.AccountManager = saved }()
+			res := call(mobius.HandleNewUser, hotline.TranNewUser, hotline.NewField(hotline.FieldUserLogin, obfuscate(login)),
+				hotline.NewField(hotline.FieldUserName, []byte("n")), hotline.NewField(hotline.FieldUserPassword, []byte("p")), hotline.NewField(hotline.FieldUserAccess, make([]byte, 8)))
+			mobius.NewYAMLAccountManager(rdir + "/")
+			return res, nil
+		})
 		effect("account-delete", users, [][]byte{login}, func() ([]hotline.Transaction, [][]byte) {
 			return call(mobius.HandleDeleteUser, hotline.TranDeleteUser, hotline.NewField(hotline.FieldUserLogin, obfuscate(login))), nil
 		})
